@@ -609,3 +609,97 @@ int cs_terms_gradient(vnacal_t *vcp, int ci, const cs_scenario *sc,
     }
     return 0;
 }
+
+/* ------------------------------------------------------------------ */
+/*
+ * cs_terms_rank16: for the 16-term types, whether the selected standards
+ * determine the error terms is a question about the documented linear
+ * system itself (vnacal_new(3): a T16 standard contributes an equation for
+ * every measured row and every standard column it was given for, a U16
+ * standard for every standard row and measured column - also when it
+ * leaves ports open).  The coefficient matrix of that system is formed
+ * from the exact measurements (linearity of the documented equations in
+ * the terms) and its rank found by complete pivoting in long double.
+ * Returns 1 when the rank equals the number of unknown terms; *margin is
+ * the pivot ratio, *eqs the number of equations.
+ */
+int cs_terms_rank16(const cs_scenario *sc, unsigned mask, long double *margin,
+	int *eqs, int *unknowns)
+{
+    const cs_vna *v = &sc->vna;
+    const int P = v->P, rows = v->rows, cols = v->cols;
+    vnacal_layout_t vl;
+    gctx_t g;
+    static lc_t r0[CS_MAXSTD * NS], r1[CS_MAXSTD * NS];
+    lc_t *A;
+    int nterms, unity, n0 = 0, rank;
+
+    *margin = 0; *eqs = 0; *unknowns = 0;
+    if (v->type != VNACAL_T16 && v->type != VNACAL_U16)
+	return -1;
+    _vnacal_layout(&vl, v->type, rows, cols);
+    nterms = VL_ERROR_TERMS(&vl);
+    unity = _vl_unity_offset(&vl, 0);
+    *unknowns = nterms - 1;
+    g.type = v->type; g.P = P; g.rows = rows; g.cols = cols; g.vl = &vl;
+
+    lc_t S[CS_MAXSTD][NS], M[CS_MAXSTD][NS];
+    bool mgiven[CS_MAXSTD][NS];
+    int sel[CS_MAXSTD], nsel = 0;
+    for (int k = 0; k < sc->nstd; ++k) {
+	cs_c Sd[NS], Md[NS];
+	bool inmap[CS_MAXP] = { false };
+	if (!(mask & (1u << k)))
+	    continue;
+	cs_std_S(sc, &sc->std[k], 0, Sd);
+	if (cs_measure(v, 0, Sd, Md) != 0)
+	    return -1;
+	for (int i = 0; i < sc->std[k].np; ++i)
+	    inmap[sc->std[k].port[i] - 1] = true;
+	for (int i = 0; i < P * P; ++i) {
+	    S[nsel][i] = Sd[i];
+	    M[nsel][i] = 0;
+	    mgiven[nsel][i] = false;
+	}
+	for (int i = 0; i < rows; ++i)
+	    for (int j = 0; j < cols; ++j) {
+		M[nsel][i * P + j] = Md[i * cols + j];
+		mgiven[nsel][i * P + j] =
+		    (!sc->std[k].abbrev_rows || inmap[i]) &&
+		    (!sc->std[k].abbrev_cols || inmap[j]);
+	    }
+	sel[nsel++] = k;
+    }
+    double complex e[8 * NS];
+    memset(e, 0, sizeof(e));
+    e[unity] = 1.0;
+    for (int q = 0; q < nsel; ++q) {
+	int n = std_residuals(&g, e, sc, sel[q], S[q], M[q], mgiven[q],
+		&r0[n0]);
+	if (n < 0)
+	    return -1;
+	n0 += n;
+    }
+    *eqs = n0;
+    if (n0 == 0)
+	return 0;
+    A = calloc((size_t)n0 * (size_t)(nterms - 1) + 1, sizeof(lc_t));
+    if (A == NULL)
+	return -1;
+    for (int t = 0, ct = 0; t < nterms; ++t) {
+	int n1 = 0;
+	if (t == unity)
+	    continue;
+	e[t] = 1.0;
+	for (int q = 0; q < nsel; ++q)
+	    n1 += std_residuals(&g, e, sc, sel[q], S[q], M[q], mgiven[q],
+		    &r1[n1]);
+	e[t] = 0.0;
+	for (int i = 0; i < n0; ++i)
+	    A[i * (nterms - 1) + ct] = r1[i] - r0[i];
+	++ct;
+    }
+    rank = lin_rank(n0, nterms - 1, A, 1e-11L, margin);
+    free(A);
+    return rank == nterms - 1;
+}
